@@ -497,7 +497,9 @@ def stateCore (focus : String) (c : Case) : Acc × String := Id.run do
     -- --- C06 / C11 twins: whole outputs must agree (same arithmetic on both sides)
     let twinList : List String :=
       (if wants focus "wtwins" then ["twinW", "twinU", "twinZ"] else []) ++
-      (if wants focus "ptwins" then ["twinSeq", "twinInto", "twinIntoPar"] else [])
+      (if wants focus "ptwins" then ["twinSeq", "twinInto", "twinIntoPar"] else []) ++
+      -- the problem itself, queried again after a clone of it was moved elsewhere and queried (every focus)
+      ["twinAfterClone"]
     for pre in twinList do
       if (step.obs.find? (·.1 == pre)).isSome then
         let t := step.get pre
